@@ -7,8 +7,11 @@
   `path`/`params`/`fields`/`variants`/`docs` and absent names). `toRegistry` transcribes the derived
   `Deserialize` on the map form: a missing member with `#[serde(default)]` takes its default, `null`
   for an `Option` is `None`, unknown keys are ignored, a wrong-typed or out-of-range member is
-  rejected. Inputs that use serde's alternative encodings (structs as positional arrays) are
-  `unmodelled`: counted by the driver, never silently passed.
+  rejected. serde's alternative encodings are modelled too: a struct given as a positional array
+  (the derived `visit_seq`: members in declaration order, a missing trailing member takes its
+  `#[serde(default)]` or is an error, serde_json rejects surplus elements) and a unit variant given
+  as `{"name": null}`. `DeErr.unmodelled` is kept for the driver's verdict type; the model no longer
+  produces it.
 
   Object keys are a closed enumeration plus `other`; the text of each key is in `Key.text`
   (used by the driver's parser/printer only).
@@ -201,10 +204,23 @@ def getKey (kv : List (Key × Json)) (k : Key) : Option Json :=
   | [] => none
   | (k', v) :: rest => if k' = k then some v else getKey rest k
 
-/-- a struct given as a JSON object; arrays (positional form) are not modelled -/
-def asStruct : Json → De (List (Key × Json))
+/-- positional form: pair the members (declaration order) with the array's elements; more elements
+    than members is serde_json's "fewer elements in array" error -/
+def zipKeys : List Key → List Json → Option (List (Key × Json))
+  | _, [] => some []
+  | [], _ :: _ => none
+  | k :: ks, j :: js => match zipKeys ks js with
+    | some r => some ((k, j) :: r)
+    | none => none
+
+/-- a struct given as a JSON object, or as a positional array over the members `spec` (declaration
+    order). A member the array is too short for is then simply absent: `req` rejects it, `dflt`
+    defaults it - which is what the derived `visit_seq` does. -/
+def asStruct (spec : List Key) : Json → De (List (Key × Json))
   | .obj kv => .ok kv
-  | .arr _ => .error .unmodelled
+  | .arr l => match zipKeys spec l with
+    | some kv => .ok kv
+    | none => .error .reject
   | _ => .error .reject
 
 def deU (bound : Nat) : Json → De Nat
@@ -251,7 +267,7 @@ def deOpt {α} (f : Json → De α) : Json → De (Option α)
     | .ok a => .ok (some a)
 
 def deField (j : Json) : De (Field Nat) :=
-  match asStruct j with
+  match asStruct [.name, .type_, .typeName, .docs] j with
   | .error e => .error e
   | .ok kv =>
     match dflt kv .name none (deOpt deStr) with
@@ -265,7 +281,7 @@ def deField (j : Json) : De (Field Nat) :=
           | .ok docs => .ok { name := name, ty := ty, typeName := tn, docs := docs }
 
 def deVariant (j : Json) : De (Variant Nat) :=
-  match asStruct j with
+  match asStruct [.name, .fields, .index, .docs] j with
   | .error e => .error e
   | .ok kv =>
     match req kv .name deStr with
@@ -280,31 +296,32 @@ def deVariant (j : Json) : De (Variant Nat) :=
 
 /-- `{ "type": id }` -/
 def deTypeOnly (j : Json) : De Nat :=
-  match asStruct j with
+  match asStruct [.type_] j with
   | .error e => .error e
   | .ok kv => req kv .type_ deU32
 
 def dePrim : Json → De Prim
   | .str s => match primOfName s with | some p => .ok p | none => .error .reject
-  | .obj _ => .error .unmodelled        -- `{"bool": null}` form
+  | .obj [(k, .null)] =>                -- `{"bool": null}`: a unit variant as a one-member map
+    match primOfName k.text with | some p => .ok p | none => .error .reject
   | _ => .error .reject
 
 /-- externally tagged enum: an object with exactly one member -/
 def deTypeDef : Json → De (TypeDef Nat)
   | .obj [(k, v)] =>
     match k with
-    | .composite => match asStruct v with
+    | .composite => match asStruct [.fields] v with
       | .error e => .error e
       | .ok kv => match dflt kv .fields [] (deArr deField) with
         | .error e => .error e
         | .ok fs => .ok (.composite fs)
-    | .variant => match asStruct v with
+    | .variant => match asStruct [.variants] v with
       | .error e => .error e
       | .ok kv => match dflt kv .variants [] (deArr deVariant) with
         | .error e => .error e
         | .ok vs => .ok (.variant vs)
     | .sequence => match deTypeOnly v with | .error e => .error e | .ok t => .ok (.sequence t)
-    | .array => match asStruct v with
+    | .array => match asStruct [.len, .type_] v with
       | .error e => .error e
       | .ok kv => match req kv .len deU32 with
         | .error e => .error e
@@ -314,7 +331,7 @@ def deTypeDef : Json → De (TypeDef Nat)
     | .tuple => match deArr deU32 v with | .error e => .error e | .ok ts => .ok (.tuple ts)
     | .primitive => match dePrim v with | .error e => .error e | .ok p => .ok (.primitive p)
     | .compact => match deTypeOnly v with | .error e => .error e | .ok t => .ok (.compact t)
-    | .bitsequence => match asStruct v with
+    | .bitsequence => match asStruct [.bitStoreType, .bitOrderType] v with
       | .error e => .error e
       | .ok kv => match req kv .bitStoreType deU32 with
         | .error e => .error e
@@ -326,19 +343,22 @@ def deTypeDef : Json → De (TypeDef Nat)
   | _ => .error .reject
 
 def deParam (j : Json) : De (TypeParam Nat) :=
-  match asStruct j with
+  match asStruct [.name, .type_] j with
   | .error e => .error e
   | .ok kv =>
     match req kv .name deStr with
     | .error e => .error e
     | .ok name =>
       -- `ty: Option<T::Type>` without `default`: serde's derive still treats a missing Option member as None
-      match dflt kv .type_ none (deOpt deU32) with
+      -- (map form only: the positional form needs the element)
+      match (match j with
+             | .arr _ => req kv .type_ (deOpt deU32)
+             | _ => dflt kv .type_ none (deOpt deU32)) with
       | .error e => .error e
       | .ok ty => .ok { name := name, ty := ty }
 
 def deTy (j : Json) : De (Ty Nat) :=
-  match asStruct j with
+  match asStruct [.path, .params, .def_, .docs] j with
   | .error e => .error e
   | .ok kv =>
     match dflt kv .path [] (deArr deStr) with
@@ -352,7 +372,7 @@ def deTy (j : Json) : De (Ty Nat) :=
           | .ok docs => .ok { path := path, params := ps, def_ := d, docs := docs }
 
 def dePType (j : Json) : De PType :=
-  match asStruct j with
+  match asStruct [.id, .type_] j with
   | .error e => .error e
   | .ok kv =>
     match req kv .id deU32 with
@@ -363,7 +383,7 @@ def dePType (j : Json) : De PType :=
 
 /-- `serde_json::from_value::<PortableRegistry>` -/
 def toRegistry (j : Json) : De PortableRegistry :=
-  match asStruct j with
+  match asStruct [.types] j with
   | .error e => .error e
   | .ok kv => req kv .types (deArr dePType)
 
